@@ -20,6 +20,13 @@ def chain(n):
     return gen.mk_case(gen.labels('o', range(n)), gen.labels('p', range(n)), [full ^ ((1 << i) - 1) for i in range(n)])
 
 
+def dense(n, m, fill, seed):
+    """A dense random table (lattices of 10**5 concepts that are not graded level by level)."""
+    rnd = gen._random.Random(repr(('dense', n, m, fill, seed)))
+    rows = [sum((rnd.random() < fill) << j for j in range(m)) for _ in range(n)]
+    return gen.mk_case(gen.labels('o', range(n)), gen.labels('p', range(m)), rows)
+
+
 def tall_relations(n, seed):
     """n objects (thousands) x 6 properties with every binary relation kind present: p0 / p1 complementary, p2 / p3
     subcontrary (no object lacks both, some have both), p4 implies p2, p5 incompatible with p4; rows in seeded order."""
